@@ -450,3 +450,30 @@ def _late2():
 
 
 _late2()
+
+
+LEVEL_TEXT = {
+    "C01": "Exploration with a reference oracle: 10 000 (quick) / 300 000 (thorough) generated (input, option) pairs are written through the public writer and read back; the answer must equal the input bit for bit. Held on what was generated, nothing more: the space of inputs x options is infinite, so exploration aimed at the boundary classes the property names is the strongest level this family offers here.",
+    "C02": "Exploration with a reference oracle (as C01) for bigBed: entries compared as sequences, item count, autoSql verbatim, chromosome table. Sampled, not exhaustive.",
+    "C03": "Exploration over query *histories*: one live reader per file, 120-300 queries each, every answer compared with a stateless model and across plain / caching / reopened readers, plus a concurrent leg for reopened readers and a dedicated 5000-entry cache-reset scenario. Held on the histories generated.",
+    "C04": "Exploration with a three-valued (must / may / must-not) oracle over long-then-short bigBed layouts packed into small blocks and nodes; sampled.",
+    "C05": "Exhaustive over the stated finite space (every n <= 40/90, every fan-out <= 5/9, one and three chromosomes, non-overlapping and overlapping block spans, every boundary query up to a deterministic thinning): for these shapes the claim is complete; beyond N and B it is not made.",
+    "C06": "Exploration with a per-base oracle (exact arithmetic where the value class allows it); sampled inputs, both file types, both pass modes, library and info tools.",
+    "C07": "Exploration: every zoom record of every level of every generated file is recomputed from the input by an independent walker + per-base model, plus a hook invariant inside the tiling loop. Sampled inputs aimed at gap/resolution relations.",
+    "C08": "As C07 with the coverage-depth function as the signal.",
+    "C09": "Exploration with an independent decoder as oracle (translation-validation flavour, but over sampled outputs, so claimed as exploration).",
+    "C10": "Exploration over a cross product of layouts produced by an independent encoder; the product is covered cell-wise (tags in the evidence), contents are sampled. Thorough adds memcheck.",
+    "C11": "Exploration over schedules: differential digests across worker counts, channel sizes, buffering, sources and seeded delay policies, with a trace monitor that reports which hand-off classes and how many distinct interleavings were actually observed; ThreadSanitizer in thorough. Schedules are sampled, never enumerated.",
+    "C12": "Layer 1 is exhaustive at call granularity for k <= 5/6 writes (complete for that bound); layers 2-4 (delay-injected threads, Miri many-seeds, ThreadSanitizer) sample real interleavings and give definite verdicts for data races, UB and deadlock on the executions they see.",
+    "C13": "Exploration by fault-class injection: every violation class x position x source x pass mode cell is reached (listed in the evidence) on sampled base inputs; termination is decided by a logical divergence hook first, a quiescence watchdog with isolated re-runs second.",
+    "C14": "Fault enumeration: exhaustive over the operation indices of each recorded run (every prefix as a crash point, every index as a fault, single and from-k-on), over sampled small inputs and two schedules per input.",
+    "C15": "Exploration with a per-base oracle over library streams (exact arithmetic) and over the merge tool's output; merge_into exhaustively on a small grid.",
+    "C16": "Exploration of the built binaries end to end over a flag matrix with a text-level differential oracle; sampled.",
+    "C17": "Exploration with a per-base oracle (library) and cross-thread-count differential (tool); sampled.",
+    "C18": "Exhaustive small worlds (all run-length vectors, all long-line positions, all windows x operation sequences, all chunk counts) against linear-scan / byte-array models; complete for the enumerated sizes.",
+    "C19": "Exploration + exhaustive short strings: generated schemas with all prefixes and single-token mutations, all <= 5-token strings over the delimiter alphabet, under panic / divergence / watchdog monitors; generator-vs-header agreement for every column count 0..40.",
+    "C20": "Exploration of the real values() calls of the built extension and of the six private routines against a per-base numpy / Rust model; exact equality only where the documentation defines the answer, a weak bound elsewhere.",
+}
+for _k, _v in LEVEL_TEXT.items():
+    if _k in PROPS:
+        PROPS[_k]["level_text"] = _v
